@@ -28,12 +28,12 @@ func init() {
 
 func poolVariants(thorough bool) []*pb.ChannelPoolConfig {
 	out := []*pb.ChannelPoolConfig{nil, {}}
-	mins := []uint32{0, 1, 2, 3}
+	mins := []uint32{0, 1, 2, 3, 5, 9}
 	maxs := []uint32{0, 1, 2, 5}
 	wms := []uint32{0, 1, 2, 100, 101}
 	idles := []uint64{0, 7}
 	if !thorough {
-		mins, maxs, wms, idles = []uint32{0, 2, 3}, []uint32{0, 2, 5}, []uint32{0, 2, 101}, []uint64{0, 7}
+		mins, maxs, wms, idles = []uint32{0, 2, 3, 5}, []uint32{0, 2, 5}, []uint32{0, 2, 101}, []uint64{0, 7}
 	}
 	for _, mn := range mins {
 		for _, mx := range maxs {
